@@ -569,6 +569,31 @@ theorem history_then_crash (pre reads : List Op) (cut : Nat) (ho : ∀ op ∈ pr
   simp only [specHist_append, h2, specHist, specStep, ← hfd, h4] at h1 hd
   exact ⟨fe, k, _, h1, hk, h3, f, ha, hd⟩
 
+/-- Crash exactly behind the k-th record (nothing of a later record survives), after any history of
+appends and reads: the object opened on the cut file behaves for EVERY further history - further appends
+included - as a capture holding the first k messages. -/
+theorem history_crash_on_boundary (pre post : List Op) (k : Nat) (ho : ∀ op ∈ pre, ValidOp op)
+    (hp : ∀ op ∈ post, ValidOp op) :
+    ∃ fk fe, appendAll ⟨[], 0⟩ ((storedBy [] pre).take k) = .ok fk ∧
+      runHist ⟨[], 0⟩ (pre ++ .truncate fk.data.length :: post)
+        = (expectedHist [] pre ++ .cut :: expectedHist ((storedBy [] pre).take k) post, some fe) ∧
+      appendAll ⟨[], 0⟩ (storedBy ((storedBy [] pre).take k) post) = .ok ⟨fe.data, fe.data.length⟩ := by
+  obtain ⟨h2, hv⟩ := specHist_valid pre [] (fun m h => by cases h) ho
+  have h0 : fileOf [] = [] := rfl
+  rw [h0] at h2
+  have hvk : ∀ m ∈ (storedBy [] pre).take k, MsgValid m := fun m hm => hv m (List.mem_of_mem_take hm)
+  obtain ⟨h3, hv3⟩ := specHist_valid post _ hvk hp
+  have hsplit : fileOf (storedBy [] pre)
+      = fileOf ((storedBy [] pre).take k) ++ fileOf ((storedBy [] pre).drop k) := by
+    rw [← fileOf_append, List.take_append_drop]
+  have htake : (fileOf (storedBy [] pre)).take (fileOf ((storedBy [] pre).take k)).length
+      = fileOf ((storedBy [] pre).take k) := by
+    rw [hsplit, List.take_left]
+  obtain ⟨fe, h1, hd⟩ := runHist_spec
+    (pre ++ .truncate (fileOf ((storedBy [] pre).take k)).length :: post) ⟨[], 0⟩
+  simp only [specHist_append, h2, specHist, specStep, htake, h3] at h1 hd
+  exact ⟨_, fe, fileOf_appendAll _ hvk, h1, by rw [hd]; exact fileOf_appendAll _ hv3⟩
+
 /-! ### non-vacuity -/
 
 /-- a stored list with all classes of messages: v0 Tx, v1 Rx 8-PSK, NOPE indication -/
